@@ -64,6 +64,16 @@ def gen_cases(tier, seed):
         for scr in itertools.product(ENUM_S[1:], repeat=depth_s - 1):
             i += 1
             cases.append({"t": "fuzz", "side": "S", "target": "IDLE_FRESH", "mode": mode, "seed": i % 97, "script": ["PUT"] + list(scr)})
+    # directed: a reset while PDUs are waiting in the queue, then every short continuation
+    for mode in ("ack", "unack"):
+        for pre in (["PUT"], ["PUT", "IDLE"], ["PUT", "IDLE", "IDLE", "IDLE", "IDLE"]):
+            for scr in itertools.product(ENUM_S, repeat=2):
+                i += 1
+                cases.append({"t": "fuzz", "side": "S", "target": "IDLE_FRESH", "mode": mode, "seed": i % 97, "script": pre + ["RESET_UNDRAINED"] + list(scr)})
+        for pre in (["MD"], ["FD0"], ["MD", "FD4"], ["MD", "FD0", "FD4", "EOF"], ["MD", "EOF"]):
+            for scr in itertools.product(ENUM_D, repeat=2):
+                i += 1
+                cases.append({"t": "fuzz", "side": "D", "target": "IDLE_FRESH", "mode": mode, "seed": i % 97, "script": pre + ["RESET_UNDRAINED"] + list(scr)})
     nloop = 3000 if tier == "quick" else 60000
     for j in range(nloop):
         cases.append({"t": "loop", "seed": seed * 1_000_003 + 500_000 + j})
@@ -154,8 +164,8 @@ def scripted_action(sym, w, ep, size):
     seq_now = cur.seq_num.value if cur is not None else w.cfg["seq_start"]
     conf = pdugen.conf(1, 2, seq_now, idw=2, seqw=2, mode=w.cfg["mode"])
     f, kind = None, None
-    if sym in ("TICK", "IDLE", "PUT"):
-        return {"TICK": "tick", "IDLE": "idle", "PUT": "put_same"}[sym], None, None, sym
+    if sym in ("TICK", "IDLE", "PUT", "NODRAIN", "RESET_UNDRAINED"):
+        return {"TICK": "tick", "IDLE": "idle", "PUT": "put_same", "NODRAIN": "nodrain", "RESET_UNDRAINED": "reset_undrained"}[sym], None, None, sym
     if sym == "CANCEL":
         return "cancel_right", None, None, sym
     if sym == "MD":
@@ -300,6 +310,17 @@ def run_fuzz(case):
                     actions_log.append("reset")
                     ep.reset()
                     ep.drain()
+                elif act == "reset_undrained":
+                    # the user resets the handler while PDUs are still waiting in its queue and only then collects what is left
+                    actions_log.append("reset_undrained")
+                    ep.autodrain = False
+                    try:
+                        ep.sm()
+                    finally:
+                        ep.autodrain = True
+                    ep.reset()
+                    ep.drain()
+                    obs["resets_with_undrained_queue"] = obs.get("resets_with_undrained_queue", 0) + 1
             except PROTO_EXC as e:
                 exc = e
             except Exception as e:  # noqa: BLE001
@@ -408,4 +429,4 @@ def finalize(ctx):
     return [], inc
 
 
-REQUIRED = {"enumerated_sequences": 5000, "fuzz_cases": 200, "pdus_to_busy_handler": 2000, "admission_rejections_checked": 500, "loop_cases": 200, "calls_returned": 2000}
+REQUIRED = {"resets_with_undrained_queue": 500, "enumerated_sequences": 5000, "fuzz_cases": 200, "pdus_to_busy_handler": 2000, "admission_rejections_checked": 500, "loop_cases": 200, "calls_returned": 2000}
